@@ -226,3 +226,16 @@ package roundrobin
 //@ extern (*net/http.Request).Cookie
 //@   params req name
 //@   ensures cookie_or_error: (result1 == nil) <==> (result0 != nil)
+
+// ---- construction establishes the lock invariants ----------------------------------------------------------------------
+// Options configure handlers, sticky sessions, listeners and logging; they are assumed not to touch the pool.
+//@ functype roundrobin.LBOption
+//@   params r
+//@   modifies r.errHandler, r.stickySession, r.requestRewriteListener, r.verbose, r.log
+
+//@ func New
+//@   props C01 C02 C11
+//@   modifies nothing
+//@   ensures empty_pool_reset_iterator: result1 == nil ==> result0 != nil && fresh(result0) && fresh(result0.mutex) && len(result0.servers) == 0 && result0.index == -1 && result0.currentWeight == 0 && result0.next == next && result0.errHandler != nil
+//@   ensures invariants_established: result1 == nil ==> poolOK(result0) && iterOK(result0) && uniq(result0)
+//@   loop 1 invariant rr != nil && fresh(rr) && fresh(rr.mutex) && len(rr.servers) == 0 && rr.index == -1 && rr.currentWeight == 0 && rr.next == next
